@@ -75,6 +75,15 @@ func runBtcExec(c Case) Obs {
 	w := newWorld(c.Seed, fixturePeers())
 	defer w.close()
 	w.installFixtures()
+	if c.Refresh {
+		// the committee's shares are refreshed first (the real resharing processes, same committee and
+		// threshold); the executors below get the relayers' long-lived stores
+		r, err := w.frostReshare("reshare-btcexec", fp, 1)
+		if err != nil || r.TimedOut || firstErr(r.Errs) != "" {
+			o.BtcNote = "refresh: " + firstErr(r.Errs)
+			return o
+		}
+	}
 	k0, err := w.frostKey(fp[0])
 	if err != nil {
 		o.BtcNote = "fixture share: " + err.Error()
